@@ -276,16 +276,7 @@ def run(ctx, report: Report) -> None:
     if d is not None:
         r5.violation('css_match.RE_NOT_EMPTY', r.where if r else 'soupsieve/css_match.py',
                      f'RE_NOT_EMPTY is {"missing" if r is None else "not [^ \\\\t\\\\n\\\\r\\\\f]"} ({d})')
-    _, me = src.func('css_match.CSSMatch.match_empty')
-    uses = any(isinstance(c, ast.Call) and unparse(c.func) == 'RE_NOT_EMPTY.search' for c in ast.walk(me))
-    py_ws = [c for c in ast.walk(me) if isinstance(c, ast.Call) and isinstance(c.func, ast.Attribute)
-             and c.func.attr in ('strip', 'isspace', 'split') and not c.args]
-    r5.instance({'match_empty': 'tests text children with RE_NOT_EMPTY.search', 'ok': uses and not py_ws}, key='use')
-    r5.obligation(uses and not py_ws)
-    if not uses or py_ws:
-        r5.violation('css_match.CSSMatch.match_empty whitespace', mmod.where(me),
-                     'match_empty decides "only whitespace" with str.strip()/isspace() (Unicode whitespace incl. NBSP) instead of the '
-                     'CSS whitespace regex: <td>&nbsp;</td> wrongly matches :empty')
+    # how match_empty uses that regex is decided by the :empty tables (R2: children of every node kind, NBSP / VT; R6 pipeline rows)
     from .sem import iframe_policy
     from ..tables import el_obj
     iframe_policy(ctx, r5, 'css_match.CSSMatch.match_empty', lambda: [el_obj('e')], lambda html, restrict: False,
